@@ -69,6 +69,9 @@ func zzC04Run(e *zzEnv, m *Manager, det *zzDetExec, H uint64, ts int64, lo uint6
 		return a
 	}
 	e.seq.script = []zzSeqAnswer{mkAns("a1.", 1), mkAns("a2.", 2), {ts: zzsym.TimeOf(ts + 3), txs: [][]byte{{7}}}, {ts: zzsym.TimeOf(ts + 4), txs: [][]byte{}}}
+	if zzC04AllAnswersFree {
+		e.seq.script[2], e.seq.script[3] = mkAns("a3.", 3), mkAns("a4.", 4)
+	}
 	ctx := context.Background()
 
 	// hashes of blocks that were committed (final save) or published
